@@ -301,6 +301,22 @@ impl Server {
         (answered, joined, death)
     }
 
+    /// shutdown + exit with attribution: Err((signature, detail)) when the loop had died (its panic
+    /// signature), shutdown was not answered or the loop did not end.
+    pub fn finish(self, prefix: &str) -> Result<(), (String, String)> {
+        let (answered, joined, death) = self.shutdown();
+        if let Some(rec) = death {
+            return Err((rec.signature(), format!("the server loop died: panic at {}: {}", rec.file, rec.message)));
+        }
+        if !answered {
+            return Err((format!("{}|shutdown-unanswered", prefix), "shutdown was not answered".into()));
+        }
+        if !joined {
+            return Err((format!("{}|exit-hangs", prefix), "exit did not end the loop cleanly".into()));
+        }
+        Ok(())
+    }
+
     /// Drop the connection without the shutdown handshake (server loop ends with an error).
     pub fn kill(mut self) {
         let t = self.thread.take();
